@@ -377,10 +377,10 @@ def check_C11(tier):
 # C17: interpreter sessions with different hash seeds
 # ---------------------------------------------------------------------------------------------
 
-def session(mode, items, seed_value, work, tag, reverse=False):
+def session(mode, items, seed_value, work, tag, reverse=False, preamble=False):
     job = os.path.join(work, 'job-%s.json' % tag)
     out = os.path.join(work, 'out-%s.json' % tag)
-    json.dump({'repo': common.REPO, 'mode': mode, 'items': items, 'reverse': reverse}, open(job, 'w'))
+    json.dump({'repo': common.REPO, 'mode': mode, 'items': items, 'reverse': reverse, 'preamble': preamble}, open(job, 'w'))
     env = dict(os.environ)
     env['PYTHONHASHSEED'] = str(seed_value)
     env['PYTHONPATH'] = common.VERIF
@@ -435,7 +435,8 @@ def check_C17(tier):
     with ThreadPoolExecutor(max_workers=3) as ex:
         # (the last session makes the calls of every group in the opposite order: a key must not depend on what the
         # process happened to key before)
-        sess = list(ex.map(lambda s: session('keys', items, s, work, 'k%s' % s, reverse=(s == 'random')), seeds))
+        # (the second session has a past: it met arguments that cannot be keyed before it makes the calls that are compared)
+        sess = list(ex.map(lambda s: session('keys', items, s, work, 'k%s' % s, reverse=(s == 'random'), preamble=(s == 1)), seeds))
     # writer / reader sessions on persistent archives, for a sample of the items
     rng = random.Random(common.seed() + 17)
     arch_items = []
@@ -454,7 +455,7 @@ def check_C17(tier):
         a['index'] = items.index(it)
         arch_items.append(a)
     session('write', arch_items, 0, work, 'w')
-    readers = [session('read', arch_items, s, work, 'r%s' % s) for s in (1, 'random')]
+    readers = [session('read', arch_items, s, work, 'r%s' % s, preamble=(s == 1)) for s in (1, 'random')]
     later = {}
     for n, a in enumerate(arch_items):
         later[a['index']] = [r[n]['kinds'] for r in readers]
